@@ -28,7 +28,7 @@ func init() {
 	tours["slots"] = []func(*core.Result, *core.RNG) (*sim, error){slotsTour}
 	tours["weeks"] = []func(*core.Result, *core.RNG) (*sim, error){weeksTour}
 	tours["restart"] = []func(*core.Result, *core.RNG) (*sim, error){restartTour, restartFaultTour}
-	tours["equip"] = []func(*core.Result, *core.RNG) (*sim, error){equipTour, keyReuseTour}
+	tours["equip"] = []func(*core.Result, *core.RNG) (*sim, error){equipTour, keyReuseTour, keyReuseBanTour}
 	tours["register"] = []func(*core.Result, *core.RNG) (*sim, error){registerTour, registerRaceTour, damagedKeyTour}
 	tours["hostile"] = []func(*core.Result, *core.RNG) (*sim, error){hostileTour, shutdownTour}
 }
@@ -378,15 +378,6 @@ func keyReuseTour(res *core.Result, r *core.RNG) (*sim, error) {
 	s.res.Count("authorize.fresh-id-reuses-key")
 	s.w.Authorize(ea, "fresh-id-reuses-key")
 	s.w.SnapHop()
-	// the first device is then banned by a conflicting authorization: it must be gone like any banned
-	// device although its key lookup now points at the other id, and its reports must bounce
-	eb := d0.Auth
-	eb.Capacity += 7
-	eb.Signature = s.w.Sign(eb.SigningBytes(), s.a.GCA)
-	s.authorize(eb, "conflict-field")
-	s.deliverReport(s.a.report(s.w, d0, s.w.Now, 777, d0.K), "report")
-	s.w.Sync(d0.ID, true)
-	s.w.SnapHop()
 	// the server's own consistency check: run it here so that this specific history carries its own key
 	term := s.w.CoqCase()
 	s.res.Case(map[string]interface{}{"ops": s.w.Desc}, term, true)
@@ -396,6 +387,37 @@ func keyReuseTour(res *core.Result, r *core.RNG) (*sim, error) {
 	}
 	s.alive = false
 	s.closedTerm = term // the history was registered above; finish only adds the term
+	return s, nil
+}
+
+// K4 continued: after the key reuse the FIRST device is banned by a conflicting authorization.  It must be
+// gone like any banned device although its key lookup now points at the other id, its reports must
+// bounce, and the state (consistent again) must survive a restart unchanged.
+func keyReuseBanTour(res *core.Result, r *core.RNG) (*sim, error) {
+	s, err := started(res, r, "equip-k4-ban", 300, false, 1000)
+	if err != nil {
+		return s, err
+	}
+	d0 := s.a.Devices[0]
+	d := s.newDevice(2000)
+	d.K = d0.K
+	ea := s.mkAuth(d, s.a.GCA)
+	d.Auth = ea
+	s.res.Count("authorize.fresh-id-reuses-key")
+	ob := s.w.Authorize(ea, "fresh-id-reuses-key")
+	eb := d0.Auth
+	eb.Capacity += 7
+	eb.Signature = s.w.Sign(eb.SigningBytes(), s.a.GCA)
+	s.authorize(eb, "conflict-field")
+	s.deliverReport(s.a.report(s.w, d0, s.w.Now, 777, d0.K), "report")
+	s.w.Sync(d0.ID, true)
+	s.w.Recent(d0.K.Pub, "key shared by the banned and the live id")
+	s.w.SnapHop()
+	s.res.Count("equip.k4-then-ban")
+	if strings.Contains(ob, "Accepted true") {
+		s.a.Devices = append(s.a.Devices, d)
+	}
+	s.restart(s.w.Now)
 	return s, nil
 }
 
